@@ -7,7 +7,7 @@ A failure means the modelled source changed shape; the correspondence run then d
 the property still holds (and supplies the replay).
 -/
 import OG.Generated.C18
-import OG.C18.OGWin
+import OG.C18.OGRec
 
 namespace OG.C18.Facts
 open OG.Gen.C18
@@ -45,6 +45,28 @@ theorem src_irateMerge_expected : src_irateMerge = "{ return func(prevTime int64
 theorem src_calcReduceResult_expected : src_calcReduceResult = "{ var firstTime, lastTime int64 var firstValue, lastValue float64 if len(prevT) > 0 { firstTime = prevT[0] firstValue = prevV[0] if len(currT) > 0 { lastTime = currT[len(currT)-1] lastValue = currV[len(currV)-1] } else { lastTime = prevT[len(prevT)-1] lastValue = prevV[len(prevV)-1] } } else { firstTime, lastTime = currT[0], currT[len(currT)-1] firstValue, lastValue = currV[0], currV[len(currV)-1] } reduceResult := lastValue - firstValue if isCounter { prev := firstValue for _, cur := range prevV { if cur < prev { reduceResult += prev } prev = cur } for _, cur := range currV { if cur < prev { reduceResult += prev } prev = cur } } return firstTime, lastTime, firstValue, lastValue, reduceResult }" := by rfl
 
 theorem fp_samplerAggregate_expected : fp_samplerAggregate = "20668f28a392d1c2" := by rfl
+
+theorem fp_peekSamples_expected : fp_peekSamples = "3e81cc8fb2e2c0ec" := by rfl
+
+theorem fp_inNextWindow_expected : fp_inNextWindow = "473b03178ad7f740" := by rfl
+
+theorem fp_isSameWindow_expected : fp_isSameWindow = "6922a9f155ec8ddf" := by rfl
+
+theorem fp_isSameStep_expected : fp_isSameStep = "a587e899a10aa68f" := by rfl
+
+theorem fp_incAggAggregate_expected : fp_incAggAggregate = "e6ad52d3b487df21" := by rfl
+
+theorem fp_sliceAggregate_expected : fp_sliceAggregate = "5ff03cb0d951069d" := by rfl
+
+theorem fp_rateAggregate_expected : fp_rateAggregate = "03d4aa6b3b2d941a" := by rfl
+
+theorem fp_incAggDoFirstWindow_expected : fp_incAggDoFirstWindow = "27e4fa8ad0b7437d" := by rfl
+
+theorem fp_incAggPopulateByPrevious_expected : fp_incAggPopulateByPrevious = "0cf992b013f2d80c" := by rfl
+
+theorem fp_incAggPopulateByLast_expected : fp_incAggPopulateByLast = "f1b359f200e13f19" := by rfl
+
+theorem fp_rewriteMinMaxTime_expected : fp_rewriteMinMaxTime = "2400ed87845b0d73" := by rfl
 
 theorem rangeVectorFunctions_expected : rangeVectorFunctions = [
   ("absent_over_time", "absent_over_time_prom"),
